@@ -634,6 +634,21 @@ func (x *Executor) value(fr *Frame, v ssa.Value) Val {
 			g0 := q(name + "@0")
 			u.declare(g0, "Iface")
 			u.assume(fmt.Sprintf("(not (= (i.tag %s) 0))", g0))
+			// error variables initialised from separate constructor calls are pairwise distinct
+			for _, other := range u.constErrs {
+				if other != g0 {
+					u.assume(fmt.Sprintf("(not (= %s %s))", g0, other))
+				}
+			}
+			seen := false
+			for _, other := range u.constErrs {
+				if other == g0 {
+					seen = true
+				}
+			}
+			if !seen {
+				u.constErrs = append(u.constErrs, g0)
+			}
 			u.trusted["package-level error variables assigned once in init are non-nil constants (checked syntactically)"] = true
 		}
 		return Val{T: "0", Ty: t.Type(), Addr: &Addr{Kind: "global", Global: name, GlobT: pt, Ty: pt}}
@@ -782,23 +797,44 @@ func (x *Executor) load(st *State, a *Addr, reach string) Val {
 	if wf := u.wfValue(t, a.Ty, 0); wf != "true" {
 		u.assume(wf)
 	}
-	x.assumeAllocated(st, v)
+	x.assumeAllocatedFrom(st, v, a.Kind != "local")
 	return v
 }
 
 // assumeAllocated: pointers read from a well-formed heap are nil or allocated.
-func (x *Executor) assumeAllocated(st *State, v Val) {
+func (x *Executor) assumeAllocated(st *State, v Val) { x.assumeAllocatedFrom(st, v, false) }
+
+// fromHeap: the value was read from a heap location (not a local, not a call result).
+func (x *Executor) assumeAllocatedFrom(st *State, v Val, fromHeap bool) {
 	u := x.u
 	if v.Ty == nil || v.Addr != nil {
 		return
+	}
+	// a value read from the heap (or received from outside) cannot point into an object this
+	// function allocated and never let escape
+	notFresh := func(ref string) {
+		var rs []string
+		for r := range st.fresh {
+			rs = append(rs, r)
+		}
+		sort.Strings(rs)
+		for _, r := range rs {
+			u.assume(fmt.Sprintf("(not (= (refroot %s) %s))", ref, r))
+		}
 	}
 	switch v.Ty.Underlying().(type) {
 	case *types.Pointer, *types.Map:
 		u.ensureAllocComp()
 		u.assume(fmt.Sprintf("(or (= %s 0) (select %s (refroot %s)))", v.T, x.heapGet(st, allocComp), v.T))
+		if fromHeap {
+			notFresh(v.T)
+		}
 	case *types.Slice:
 		u.ensureAllocComp()
 		u.assume(fmt.Sprintf("(or (= (s.base %s) 0) (select %s (refroot (s.base %s))))", v.T, x.heapGet(st, allocComp), v.T))
+		if fromHeap {
+			notFresh(fmt.Sprintf("(s.base %s)", v.T))
+		}
 	case *types.Interface:
 		// dynamic pointer payloads: allocated or boxed ids (boxed ids are not in alloc but never compared with refs of the same type)
 	}
